@@ -109,6 +109,18 @@ __CPROVER_ensures((c) == 0 || gn_t != NT_SPLIT || (g_rc_calls == 2 && g_rc_node1
 /* STOP is the HALT instruction */
 __CPROVER_ensures((c) == 0 || gn_t != NT_STOP || (GNC == g_al_gnc + 1 && GOP(GNC - 1) == OP_HALT && g_dv_calls == 0 && g_rc_calls == 0 &&
                   GNERR == OLD(GNERR))) /*@C01*/
+/* reachability of every case under the recording callee contracts (each of these must FAIL) */
+__CPROVER_ensures((c) != 0) /*@CANARY*/
+__CPROVER_ensures((c) == 0 || gn_t != NT_ASSIGN) /*@CANARY*/
+__CPROVER_ensures((c) == 0 || gn_t != NT_LOOP) /*@CANARY*/
+__CPROVER_ensures((c) == 0 || gn_t != NT_WHILE) /*@CANARY*/
+__CPROVER_ensures((c) == 0 || gn_t != NT_MARK) /*@CANARY*/
+__CPROVER_ensures((c) == 0 || gn_t != NT_GOTO) /*@CANARY*/
+__CPROVER_ensures((c) == 0 || gn_t != NT_IF) /*@CANARY*/
+__CPROVER_ensures((c) == 0 || gn_t != NT_PROGRAM) /*@CANARY*/
+__CPROVER_ensures((c) == 0 || gn_t != NT_SPLIT) /*@CANARY*/
+__CPROVER_ensures((c) == 0 || gn_t != NT_STOP) /*@CANARY*/
+__CPROVER_ensures((c) == 0 || IS_STMT_KIND(gn_t) || gn_t == NT_SPLIT || gn_t == NT_STOP) /*@CANARY*/
 /* C02/C04: any other node kind is reported as a malformed tree, nothing is generated for it */
 __CPROVER_ensures((c) == 0 || IS_STMT_KIND(gn_t) || gn_t == NT_SPLIT || gn_t == NT_STOP ||
                   (GNERR == OLD(GNERR) + 1 && g_gs->errors._d[GNERR - 1].t == ET_MALFORMED_AST && GNC == g_al_gnc && g_dv_calls == 0 && g_rc_calls == 0)) /*@C02,C04*/;
@@ -133,6 +145,8 @@ __CPROVER_assigns(g_seq, g_rc_calls, g_rc_node1)
 ENS_MONO_V
 /* an error-free tree: exactly the root is dispatched */
 __CPROVER_ensures(!OLD(IN_OK) || (g_rc_calls == 1 && g_rc_node1 == OLD(g_gs->in.root))) /*@C02,C01*/
+__CPROVER_ensures(!OLD(IN_OK)) /*@CANARY*/
+__CPROVER_ensures(OLD(IN_OK)) /*@CANARY*/
 /* a tree with errors: nothing is dispatched, no code is generated, every parser error is forwarded in order with its message
  * and location as a PARSE_ERROR (so the result is marked incorrect with these errors) */
 __CPROVER_ensures(OLD(IN_OK) || (g_rc_calls == 0 && GNC == OLD(GNC) && NLAB == OLD(NLAB) && NBP == OLD(NBP) && GNERR == OLD(GNERR) + NIE)) /*@C02*/
